@@ -170,6 +170,17 @@ func main() {
 		st.Notes["tan_index_block_size"] = fmt.Sprint(hooks.TanIndexBlockSize())
 		obs := vh.Create(a.Out + "/impl.obs")
 		for _, line := range vh.ReadLines(a.Cases) {
+			if hf := strings.Fields(line); len(hf) >= 2 && hf[1] == "tanidx" {
+				_, body, _ := strings.Cut(line, " | ")
+				var ops []string
+				for _, t := range strings.Split(body, " ; ") {
+					if strings.TrimSpace(t) != "" {
+						ops = append(ops, t)
+					}
+				}
+				runTanIdx(tcase{ID: hf[0], Kind: "tanidx", Line: line}, ops, obs, st)
+				continue
+			}
 			c, ok := parseCase(line)
 			if !ok {
 				obs.Printf("%s badcase\n", strings.Fields(line)[0])
